@@ -17,7 +17,8 @@ import multiprocessing as mp
 VERIF = os.path.dirname(os.path.dirname(os.path.abspath(__file__)))
 REPO = os.environ.get("VERIF_REPO", "/repo")
 SPEC = os.path.join(VERIF, "spec")
-EVID = os.path.join(VERIF, "evidence")
+EVID = os.environ.get("VERIF_EVID") or os.path.join(VERIF, "evidence")
+REPLAYS = os.environ.get("VERIF_REPLAYS") or os.path.join(VERIF, "replays")
 PY = "/venv/bin/python"
 GUARD = "SIMPLE_DDL_PARSER_VERIF"
 NCPU = min(16, os.cpu_count() or 4)
@@ -174,6 +175,22 @@ def run_tlc(module, cfg_kwargs, *, workers=None, timeout=900, coverage=False, si
         shutil.rmtree(work, ignore_errors=True)
 
 
+def run_tlc_wrapped(module, consts, cfg_kwargs, **kw):
+    """Like run_tlc, but every constant is given as a TLA+ expression through a generated wrapper module
+    (cfg files cannot hold tuples / records): MC_<module> EXTENDS <module>, `K <- c_K`."""
+    wrap = "MC_" + module
+    body = [f"---- MODULE {wrap} ----", f"EXTENDS {module}"]
+    cs = {}
+    for k, v in consts.items():
+        body.append(f"c_{k} == {v}")
+        cs[k] = f"<- c_{k}"
+    body.append("====")
+    ck = dict(cfg_kwargs)
+    ck["constants"] = cs
+    extra = list(kw.pop("extra_modules", ())) + [(wrap + ".tla", "\n".join(body) + "\n")]
+    return run_tlc(wrap, ck, extra_modules=extra, **kw)
+
+
 def require_tlc_ok(r, what):
     if not r.ok:
         raise MachineryError(f"TLC failed on {what}: rc={getattr(r,'rc',None)} violated={r.violated}\n{r.tail}")
@@ -299,8 +316,8 @@ class Verdict:
             if n:
                 print(f"KNOWN-FINDING: property={self.pid} {f['id']} {f['what']} ({n} cases)")
         if self.viol:
-            os.makedirs(os.path.join(VERIF, "replays"), exist_ok=True)
-            path = os.path.join(VERIF, "replays", f"{self.pid}_{int(time.time())}.json")
+            os.makedirs(REPLAYS, exist_ok=True)
+            path = os.path.join(REPLAYS, f"{self.pid}_{int(time.time())}.json")
             with open(path, "w") as fh:
                 json.dump({"property": self.pid, "violations": self.viol[:50], "total": len(self.viol)}, fh,
                           indent=1, default=repr)
